@@ -57,12 +57,12 @@ CLAIMED = {
    tech="contract-based deductive verification: frame obligations per store site + quantified prefix-preservation postconditions, cut-point VCs over go/ssa, z3/cvc5",
    ref="DESIGN.md section 6 (C16)"),
  "C18": dict(
-   text="Decides the classical sufficient condition for race freedom of independent calls, not interleavings: every function of rjson and internal/fp (SSA scan of all of them) never stores into package-level memory (tables and error sentinels are written by init only), and every store site of the functions under contract targets a local, freshly allocated memory, or memory reachable from the function's own non-input parameters. With disjoint write footprints and read-only shared input, race freedom and sequential equivalence follow by the frame rule, which is an unchecked meta-argument (M-frame). A hidden package-level scratch buffer fails a named obligation.",
+   text="Decides the classical sufficient condition for race freedom of independent calls, not interleavings: every function of rjson and internal/fp (SSA scan of all of them) never stores into package-level memory nor hands package-level memory to a callee as a writable slice or pointer (tables and error sentinels are written by init only), and every store site of the functions under contract targets a local, freshly allocated memory, or memory reachable from the function's own non-input parameters. With disjoint write footprints and read-only shared input, race freedom and sequential equivalence follow by the frame rule, which is an unchecked meta-argument (M-frame). A hidden package-level scratch buffer fails a named obligation.",
    note="Schedules are not explored and nothing runs under the race detector (a different technique). sync.Pool is trusted to be concurrency-safe.",
    tech="contract-based deductive verification: frame conditions (no global writes, writes confined to own footprint) over go/ssa",
    ref="DESIGN.md section 6 (C18)"),
  "C19": dict(
-   text="Proof, through a ghost counter of heap bytes requested (incremented at every make, append growth, []byte<->string conversion, interface boxing, fmt.Errorf and escaping new in the functions under contract), that successful calls of the token, null, bool, integer and float readers and of the numeric/boolean Decode functions (including Decode on a null input) request zero bytes, modularly through their callees; growBytesSliceCapacity and unescapeUnicodeChar request nothing when the capacity suffices.",
+   text="Proof, through a ghost counter of heap bytes requested (incremented at every make, append growth, []byte<->string conversion, interface boxing, fmt.Errorf and escaping new in the functions under contract), that successful calls of the token, null, bool, integer and float readers and of the numeric/boolean Decode functions (including Decode on a null input) request zero bytes, modularly through their callees; growBytesSliceCapacity and unescapeUnicodeChar request nothing when the capacity suffices; and the four stack machines and their wrappers never hand back a stack slice shorter than the one they received, on any exit, so a warmed Buffer stays warmed across calls (the property's hypothesis is preserved).",
    note="Partial with respect to the property's list: SkipValue/SkipValueFast/Valid/HandleArrayValues/HandleObjectValues with a warmed Buffer and ReadStringBytes/UnescapeStringContent with spare capacity are NOT proved; for them a BOUNDED stand-in (labelled bounded, not counted as discharged) measures testing.AllocsPerRun == 0 on the real code over a corpus of documents with a warmed Buffer / spare capacity (their allocation sites are the capacity-growth sites only, see C20; the step 'warmed => guard false' needs a depth bound that is not built). internal/fp is assumed not to allocate. The compiler's escape analysis and the allocator are not modelled.",
    tech="contract-based deductive verification: ghost resource counter in postconditions, path VCs over go/ssa, z3/cvc5",
    ref="DESIGN.md section 6 (C19)"),
